@@ -90,7 +90,12 @@ def run_case(case):
     nontrivial = any(c in s for c in ",;:\\%' ’^") or kind == "two" or "|" in case[3]
     outcome = "ok"
     P = Parameters()
+    as_vtext = (len(s) + len(given[0][0])) % 2 == 1
     for k, v in given:
+        # in every other case the values are handed over as vText objects (what a parsed TEXT property holds, and what
+        # docs/usage does): the same wire form as plain strings - parameter values are never TEXT-escaped
+        if as_vtext:
+            v = [vText(x) for x in v] if isinstance(v, list) else vText(v)
         P[k] = v
     if path == "alone":
         text = P.to_ical().decode("utf-8")
@@ -156,7 +161,7 @@ def run_case(case):
         state = ("vtimezone", path, line, repr(obs))
     else:
         comp = Event() if case[-1][:1] != "a" else Todo()  # lenient and strict container
-        comp.add("x-a", "v", parameters=dict(given))
+        comp.add("x-a", "v", parameters=dict(P))
         cal = Calendar()
         cal.add_component(comp)
         data = cal.to_ical()
